@@ -476,7 +476,20 @@ def norm_facts():
                 ranges[-1][1] = cp
             else:
                 ranges.append([cp, cp])
-    return dict(chars=chars, rep=rep, prefix=prefix, ranges=ranges, valid=base.RE_VALID_FIELD_NAME.pattern,
+    # RE_VALID_FIELD_NAME: <body><end anchor>; the anchor may be `$` (also matches before ONE trailing newline) or `\Z`
+    vpat = base.RE_VALID_FIELD_NAME.pattern
+    if vpat.endswith("\\Z"):
+        vbody, vend_z = vpat[:-2], True
+    elif vpat.endswith("$") and not vpat.endswith("\\$"):
+        vbody, vend_z = vpat[:-1], False
+    else:
+        raise Unsupported("RE_VALID_FIELD_NAME %r does not end in `$` or `\\Z`" % vpat)
+    if base.RE_VALID_FIELD_NAME.flags & (re.M | re.I | re.X | re.S):
+        raise Unsupported("RE_VALID_FIELD_NAME is compiled with flags")
+    # the anchor read from the text is the anchor the compiled pattern has
+    if bool(base.RE_VALID_FIELD_NAME.match("a\n")) != (not vend_z) or not base.RE_VALID_FIELD_NAME.match("a"):
+        raise Unsupported("RE_VALID_FIELD_NAME: end anchor behaves differently from its text")
+    return dict(chars=chars, rep=rep, prefix=prefix, ranges=ranges, valid=vbody, valid_end_z=vend_z,
                 reserved=list(base.RESERVED_FIELDS))
 
 
@@ -532,8 +545,10 @@ def gen_text():
     out += "(* base.normalize_fieldname *)\n"
     out += "Definition gen_ncfg : ncfg := {| n_chars := %s; n_sub := %s; n_prefix := %s |}.\n" % (
         ctlist(str(ord(ch)) for ch in nm["chars"]), ctext(nm["rep"]), ctext(nm["prefix"]))
-    out += "(* base.RE_VALID_FIELD_NAME.pattern *)\n"
-    out += "Definition gen_valid_field_name_pattern : text := %s.\n" % ctext(nm["valid"])
+    out += "(* base.RE_VALID_FIELD_NAME.pattern without its end anchor *)\n"
+    out += "Definition gen_valid_field_name_body : text := %s.\n" % ctext(nm["valid"])
+    out += "(* its end anchor: true = \\Z (end of text), false = $ (end of text, or before one trailing line feed) *)\n"
+    out += "Definition gen_valid_field_name_end_is_Z : bool := %s.\n" % cbool(nm["valid_end_z"])
     out += "(* str.isdecimal of this interpreter (Unicode category Nd), as inclusive ranges *)\n"
     out += "Definition gen_decimal_ranges : list (N * N) :=\n  %s.\n" % ctlist("(%d, %d)" % (a, b) for a, b in nm["ranges"])
     out += "Definition gen_isdecimal : N -> bool := in_ranges gen_decimal_ranges.\n"
